@@ -28,6 +28,13 @@ impl FileSystemState {
         operations.push(FileSystemOperation::DeleteDirectory(
             artifact_directory.to_path_buf(),
         ));
+        // Root files are written directly into the artifact directory. If there is no nested
+        // artifact whose CreateDirectory re-creates it (as a parent), create it explicitly.
+        if state.nested_files.values().all(|selectables| selectables.is_empty()) {
+            operations.push(FileSystemOperation::CreateDirectory(
+                artifact_directory.to_path_buf(),
+            ));
+        }
 
         for (new_server_object_entity_name, new_selectable_map) in &state.nested_files {
             let new_server_object_path = artifact_directory.join(new_server_object_entity_name);
